@@ -1327,6 +1327,12 @@ def _literal(e):
         return all(_literal(x) for x in e.elts)
     if isinstance(e, ast.Attribute):   # OrderStatus.EXECUTABLE and the like
         return _stable(e)
+    if isinstance(e, ast.Call) and not e.keywords and ast.unparse(e.func) in (
+            "itemgetter", "operator.itemgetter", "attrgetter", "operator.attrgetter", "frozenset", "tuple"):
+        return all(_literal(x) for x in e.args)     # stateless key functions / immutable collections of literals
+    if isinstance(e, ast.Lambda):                   # a stateless key function: reads only its own parameters
+        own = {a.arg for a in e.args.args}
+        return not e.args.defaults and all(n.id in own for n in ast.walk(e.body) if isinstance(n, ast.Name))
     return False
 
 
